@@ -194,6 +194,40 @@ def design_check(module, cfg, tag, workers=4, timeout=900, want_replay=False, si
     return res
 
 
+def apalache_inductive(module, inv="IndInv", cinit="ConstInit", timeout=900):
+    """Unbounded design-level argument: Apalache discharges Init => inv and inv /\\ Next => inv' for spec/apalache/<module>.tla.
+    Concerns the specification only (never /repo): a counterexample is a machinery error (exit 2); when Apalache is missing
+    or does not finish, the step is recorded as not run and nothing else changes."""
+    import shutil as _sh
+    res = {"module": "apalache/" + module, "inv": inv, "base": "not run", "step": "not run", "wall": 0.0}
+    exe = _sh.which("apalache-mc")
+    if not exe:
+        return res
+    out = os.path.join(WORK, "apalache", module)
+    os.makedirs(out, exist_ok=True)
+    t0 = time.time()
+    for name, extra in (("base", ["--init=Init", "--length=0"]), ("step", ["--init=IndInit", "--length=1"])):
+        try:
+            p = subprocess.run([exe, "check", "--cinit=" + cinit, "--inv=" + inv, "--out-dir=" + out] + extra + [module + ".tla"],
+                               cwd=os.path.join(VERIF, "spec", "apalache"), stdout=subprocess.PIPE, stderr=subprocess.STDOUT,
+                               text=True, timeout=timeout)
+        except subprocess.TimeoutExpired:
+            res[name] = "timeout"
+            break
+        if "The outcome is: NoError" in p.stdout:
+            res[name] = "proved"
+        elif "The outcome is: Error" in p.stdout:
+            sys.stderr.write(p.stdout[-2000:])
+            raise ToolError("apalache/%s: %s is not inductive (%s case) - specification problem" % (module, inv, name))
+        else:
+            res[name] = "tool failure"
+            break
+    res["wall"] = round(time.time() - t0, 1)
+    shutil.rmtree(out, ignore_errors=True)
+    log("apalache %s: %s base=%s step=%s %.1fs" % (module, inv, res["base"], res["step"], res["wall"]))
+    return res
+
+
 # ---------------------------------------------------------------------------------------
 # harness invocations
 # ---------------------------------------------------------------------------------------
